@@ -370,6 +370,45 @@ Fixpoint to_json_fd (fd : Z -> list Z) (e : jexp) : json :=
   | EObj ms => JObj (map (fun m => (fst m, to_json_fd fd (snd m))) ms)
   end.
 
+(* ---- the text of an expected tree, printed directly (no detour through the JSON AST): what the converter writes.
+   A quoted number (Int642String, api.js_conv) is the number's text between quotes — for a double the lexeme fd b as it is;
+   with escape-free lexemes this is json_print (to_json_fd fd e) (proofs/T2JBytesProofs.v jexp_print_json) ---- *)
+Section EPrint.
+  Variable pr : jexp -> list Z.
+  Fixpoint eprint_tail (l : list jexp) : list Z :=
+    match l with [] => [93] | y :: l' => 44 :: pr y ++ eprint_tail l' end.
+  Definition eprint_member (m : list Z * jexp) : list Z := quote_ref (fst m) ++ 58 :: pr (snd m).
+  (* members, each preceded by a comma; no closing brace *)
+  Fixpoint eprint_mems (l : list (list Z * jexp)) : list Z :=
+    match l with [] => [] | m :: l' => 44 :: eprint_member m ++ eprint_mems l' end.
+End EPrint.
+
+Fixpoint jexp_print (fd : Z -> list Z) (e : jexp) : list Z :=
+  match e with
+  | EBool b => if b then lit_true else lit_false
+  | EInt z => fmt_int z
+  | EDouble b => fd b
+  | EStr s | EStrV s => quote_ref s
+  | EByteV z => 34 :: fmt_int z ++ [34]
+  | EQuoted e' =>
+    match e' with
+    | EInt z => 34 :: fmt_int z ++ [34]
+    | EDouble b => 34 :: fd b ++ [34]
+    | _ => jexp_print fd e'              (* as T2J.to_json: only numbers are quoted *)
+    end
+  | EArr xs => 91 :: match xs with [] => [93] | x :: l => jexp_print fd x ++ eprint_tail (jexp_print fd) l end
+  | EObj ms => 123 :: match ms with
+                      | [] => [125]
+                      | m :: l => eprint_member (jexp_print fd) m ++ eprint_mems (jexp_print fd) l ++ [125]
+                      end
+  end.
+
+Definition spec_text_p (fd : Z -> list Z) (t : tres) : option (list Z) :=
+  match t with
+  | TOk e => if jexp_finite e then Some (jexp_print fd e) else None
+  | _ => None
+  end.
+
 (* what the spec says the text is: the canonical print of the expected tree when every double in it has a spelling *)
 Definition spec_text_fd (fd : Z -> list Z) (t : tres) : option (list Z) :=
   match t with
